@@ -178,32 +178,6 @@ theorem delRef_dict_root (cls : Cls) (kvs : List (Str × Val)) (p : Pos) (r : Bo
       obtain ⟨kvs2, h2⟩ := pruneUp_dict_root cls p.dropLast (p.length - 1) kvs1
       exact ⟨kvs2, by rw [← h2]; simpa using h.symm⟩
 
-theorem createIn_dict (c : Cls) (kvs : List (Str × Val)) (steps : List CStep) (v cur' : Val)
-    (h : createIn (.dict c kvs) steps v = some cur') : ∃ kvs', cur' = .dict c kvs' := by
-  cases steps with
-  | nil => simp [createIn] at h
-  | cons s r =>
-    cases s with
-    | name n =>
-      simp only [createIn] at h
-      split at h
-      · cases h; exact ⟨_, rfl⟩
-      · cases h
-    | elem n e =>
-      simp only [createIn] at h
-      split at h
-      · split at h
-        · cases h; exact ⟨_, rfl⟩
-        · cases h
-      · split at h
-        · cases h; exact ⟨_, rfl⟩
-        · split at h
-          · split at h
-            · cases h; exact ⟨_, rfl⟩
-            · cases h
-          · cases h
-    | idx e => simp [createIn] at h
-
 theorem createRef_dict_root (cls : Cls) (kvs : List (Str × Val)) (q : Pos) (steps : List CStep) (v t' : Val)
     (h : createRef (.dict cls kvs) q steps v = some t') : ∃ kvs', t' = .dict cls kvs' := by
   unfold createRef at h
